@@ -42,12 +42,14 @@ def norm (env : Env) : Nat → Ty → Value → Value
 /-- fuel for the literals of a schema (nesting depth of a default literal) -/
 def literalFuel : Nat := 64
 
-/-- one pass: every default literal replaced by the value it denotes under `env` -/
-def expandDefaultsOnce (env : Env) : Env :=
-  env.map fun (e : TName × Decl) => match e.2 with
-    | .record incs own =>
-      (e.1, .record incs (own.map fun f => { f with dflt := f.dflt.map (norm env literalFuel f.ty) }))
-    | _ => e
+/-- a declaration with every default literal replaced by the value it denotes under `env` -/
+def expandDecl (env : Env) : Decl → Decl
+  | .record incs own =>
+    .record incs (own.map fun f => { f with dflt := f.dflt.map (norm env literalFuel f.ty) })
+  | d => d
+
+/-- one pass over the schema -/
+def expandDefaultsOnce (env : Env) : Env := env.map fun (e : TName × Decl) => (e.1, expandDecl env e.2)
 
 /-- the schema as the generated code holds it: default literals read as documents of their field's
 type, so that a record-typed default carries the own defaults of the record it names (and those
